@@ -519,12 +519,22 @@ class BaseParser:
         as_attname: bool = False,
         excluded_keys: List[str] = None,
     ):
+        options = context.options
         if self.case_insensitive_names:
             _data = {}
             for k, v in data.items():
                 k = str(k)
                 if k.lower() in self.case_insensitive_names:
-                    _data[k.lower()] = v
+                    lk = k.lower()
+                    if lk in _data and not options.ignore_alias_conflicts and _data[lk] != v:
+                        # the same name given in two letter cases with different values
+                        # is an alias conflict (as in data_first_parse), keep the first one
+                        field = self.get_field(lk)
+                        if field and not field.is_no_input(v, options=options):
+                            context.handle_error(exc.AliasConflictError(
+                                item=field.attname if as_attname else field.name, value=v))
+                        continue
+                    _data[lk] = v
                 else:
                     _data[k] = v
             data = _data
@@ -533,7 +543,6 @@ class BaseParser:
         used_alias = set()
         dependencies = set()
         unprovided_fields = set()
-        options = context.options
 
         for key, field in self.fields.items():
             value = unprovided
